@@ -47,7 +47,8 @@ var key = "precious"
 
 // policyStyle: how the bucket policy of the case in hand is written (0: Allow of the listed actions plus an Allow of the
 // bypass permission for its holders; 1: Allow s3:* for alice and bob, then an explicit Deny of the bypass permission for
-// everybody who does not hold it)
+// everybody who does not hold it; 2: like 0, but the bypass permission is granted below the prefix tmp/ only - the holders
+// may delete retained keys there, not the protected key)
 var policyStyle int
 
 var allActs = []string{"s3:PutObject", "s3:GetObject", "s3:DeleteObject", "s3:GetObjectVersion", "s3:PutObjectRetention", "s3:GetObjectRetention",
@@ -74,7 +75,10 @@ func policyDoc(b string, bypass map[string]bool) string {
 		}
 		return doc + `]}`
 	}
-	if len(holders) > 0 {
+	if len(holders) > 0 && policyStyle == 2 {
+		// the holders may bypass retention below tmp/ only: not on the protected key
+		doc += `,{"Effect":"Allow","Principal":` + q(holders) + `,"Action":"s3:BypassGovernanceRetention","Resource":"arn:aws:s3:::` + b + `/tmp/*"}`
+	} else if len(holders) > 0 {
 		doc += `,{"Effect":"Allow","Principal":` + q(holders) + `,"Action":"s3:BypassGovernanceRetention","Resource":` + res + `}`
 	}
 	return doc + `]}`
@@ -257,6 +261,9 @@ func execA(c caseA) (st stats, err error) {
 	hasBypass := func(o op) bool {
 		// only an account the policy names holds the permission; root / admin with the header
 		// are treated as "may hold it" (the outcome is then not judged)
+		if c.PolStyle == 2 {
+			return false // (the permission is held below tmp/ only, the protected key lies elsewhere)
+		}
 		return bypass[o.Caller] // holding the permission is what the statement asks for; the header is optional
 	}
 	maybeBypass := func(o op) bool {
@@ -322,8 +329,14 @@ func execA(c caseA) (st stats, err error) {
 			var list []s3c.KV
 			for d := 0; d < o.Pos%3; d++ {
 				dk := fmt.Sprintf("decoy-%d-%d", i, d)
+				until := time.Now().Add(-time.Hour)
+				if c.PolStyle == 2 {
+					// a key under GOVERNANCE retention that the caller may well delete (bypass permission below tmp/):
+					// the decision taken for it is not the decision for the protected key that follows
+					dk, until = "tmp/"+dk, time.Now().Add(time.Hour)
+				}
 				cl.Call("PUT", "/"+b+"/"+dk, nil, nil, []byte("unprotected"))
-				root.Call("PUT", "/"+b+"/"+dk, s3c.Q("retention", ""), []s3c.KV{{K: "x-amz-bypass-governance-retention", V: "true"}}, retXML("GOVERNANCE", time.Now().Add(-time.Hour)))
+				root.Call("PUT", "/"+b+"/"+dk, s3c.Q("retention", ""), []s3c.KV{{K: "x-amz-bypass-governance-retention", V: "true"}}, retXML("GOVERNANCE", until))
 				list = append(list, s3c.KV{K: dk})
 			}
 			list = append(list, kv)
@@ -507,7 +520,7 @@ func TestC10A(t *testing.T) {
 		c.NoPolicy = rapid.IntRange(0, 3).Draw(t, "no_policy") == 0
 		c.Older = rapid.IntRange(0, 2).Draw(t, "older") == 0
 		c.DirKey = rapid.IntRange(0, 5).Draw(t, "dir_key") == 0
-		c.PolStyle = rapid.IntRange(0, 2).Draw(t, "policy_style") % 2
+		c.PolStyle = rapid.SampledFrom([]int{0, 0, 1, 2, 2}).Draw(t, "policy_style")
 		c.Ops = rapid.SliceOfN(opGen(), 1, 10).Draw(t, "ops")
 		ev.Trace("C10A", c)
 		st, err := execA(c)
